@@ -10,7 +10,11 @@ static int vr_mutex_owner, vr_cond_signals, vr_cond_broadcasts, vr_cond_waits;
 static void (*vr_cond_wait_hook)(void);
 int pthread_mutex_init(pthread_mutex_t *m, const pthread_mutexattr_t *a) { return 0; }
 int pthread_mutex_destroy(pthread_mutex_t *m) { return 0; }
-int pthread_mutex_lock(pthread_mutex_t *m) { __CPROVER_assert(vr_mutex_owner == 0, "pthread mutex: lock while already held (self-deadlock)"); vr_mutex_owner = 1; return 0; }
+int pthread_mutex_lock(pthread_mutex_t *m) {
+#ifdef VR_MUTEX_OTHER_BLOCKS
+    __CPROVER_assume(vr_mutex_owner != 2); /* held by another stream: this caller blocks */
+#endif
+    __CPROVER_assert(vr_mutex_owner == 0, "pthread mutex: lock while already held (self-deadlock)"); vr_mutex_owner = 1; return 0; }
 int pthread_mutex_unlock(pthread_mutex_t *m) { __CPROVER_assert(vr_mutex_owner == 1, "pthread mutex: unlock without holding"); vr_mutex_owner = 0; return 0; }
 int pthread_cond_init(pthread_cond_t *c, const pthread_condattr_t *a) { return 0; }
 int pthread_cond_destroy(pthread_cond_t *c) { return 0; }
